@@ -33,6 +33,8 @@ class Sh(ld.DiffRunner):
             self.run_program(funcs, prog, "errors/" + self.route, loopy=False)
             if self.res["counters"].get("worker_crashes", 0) > CRASH_BUDGET: return
 
+    PRE = 'a = 1; b = 2; c = 0; d = int(); p = true; q = bool(); s = "ab"; u = ""; t = tab(2, 4); w = tab(2, 0); tt = tab(2, tab(1, 1));\n'
+
     def header_errors(self):
         """the failing operation is the loop/condition *header* itself (also failures no handler can catch): whatever the outcome, no
         control state, constraint or table lock is left and the context runs the standard probe afterwards (no reference model involved)"""
@@ -45,7 +47,7 @@ class Sh(ld.DiffRunner):
                  "for q in 1 to 2 loop begin %s exception when others then c = -1; end; end loop;", "forall g in w loop %s end loop;",
                  "begin begin %s exception when oops then nop; end; exception when others then c = -4; end;",
                  "function hf return integer is begin %s return 1; end; begin c = hf(); exception when others then c = -5; end;"]
-        pre = 'a = 1; b = 2; c = 0; d = int(); p = true; q = bool(); s = "ab"; u = ""; t = tab(2, 4); w = tab(2, 0); tt = tab(2, tab(1, 1));\n'
+        pre = self.PRE
         k, n = self.desc["k"], self.desc["n"]
         idx = 0
         for h in headers:
@@ -53,34 +55,76 @@ class Sh(ld.DiffRunner):
                 idx += 1
                 if idx % n != k: continue
                 text = pre + (wr % h) + "\n"
-                ops = self.ops_for(text)
-                r = self.probe.case(ops)
-                self.res["evaluations"] += 1; bump(self.res, "header_error_programs")
-                if r.timeout: self.res["inconclusive"] += 1; continue
-                if r.crashed:
-                    bump(self.res, "worker_crashes")
-                    add_violation(self.res, "C07|crash:%s" % r.sig, "header-error program crashed: %s" % r.sig, {"ops": ops, "program": text, "report": r.report[-3000:]}); continue
-                rep = r.replies
-                if self.route == "istmt":
-                    rep = [rep[0], "perr" + rep[1][4:] if rep[1].startswith("perr") else "ok", rep[1], rep[2], rep[3], "perr" + rep[4][4:] if rep[4].startswith("perr") else "ok", rep[4], rep[5]]
-                if not rep[1].startswith("ok"):
-                    bump(self.res, "header_error_programs_refused_at_compile_time"); continue
-                ioc, intr, out, steps = ld.impl_outcome(rep[2], self.E)
-                if intr:
-                    self.viol("non-termination|header", "`%s` still running after 20000 statements" % (wr % h), ops, text); continue
-                bad, d = ld.residue(rep[3])
-                if bad:
-                    self.viol("residue|" + bad[0].split()[0], "after `%s` (%s): %s" % (wr % h, ioc, "; ".join(bad)), ops, text); continue
-                live = int(d["kw"].get("live", "0")); nfn = int(d["kw"].get("nfn", "0")); cached = int(d["kw"].get("cached", "0"))
-                if live != 1 + nfn + cached:
-                    self.viol("context-conservation", "after `%s`: %d live contexts, expected 1 + %d + %d" % (wr % h, live, nfn, cached), ops, text); continue
-                if not rep[5].startswith("ok") or not rep[6].startswith("ok"):
-                    self.viol("probe-rejected", "after `%s` (%s) the probe program is refused: %s / %s" % (wr % h, ioc, rep[5][:100], rep[6][:100]), ops, text); continue
-                pm = ld.markers(unhx(rfields(rep[6])[2].get("out", "-")))
-                if pm != ["@@P:3 3 2"]:
-                    self.viol("probe-output", "after `%s` the probe printed %r" % (wr % h, pm), ops, text); continue
-                self.res["nontrivial"].add(case_hash(text))
-                bump(self.res, "header_error_outcome_" + ioc[0])
+                self.judge(text, wr % h)
+
+    def judge(self, text, label, expect=None, counter="header_error_programs", kind="fixed"):
+        ops = self.ops_for(text)
+        r = self.probe.case(ops)
+        self.res["evaluations"] += 1; bump(self.res, counter)
+        if r.timeout: self.res["inconclusive"] += 1; return
+        if r.crashed:
+            bump(self.res, "worker_crashes")
+            add_violation(self.res, "C07|crash:%s" % r.sig, "header-error program crashed: %s" % r.sig, {"ops": ops, "program": text, "report": r.report[-3000:]}); return
+        rep = r.replies
+        if self.route == "istmt":
+            rep = [rep[0], "perr" + rep[1][4:] if rep[1].startswith("perr") else "ok", rep[1], rep[2], rep[3], "perr" + rep[4][4:] if rep[4].startswith("perr") else "ok", rep[4], rep[5]]
+        if not rep[1].startswith("ok"):
+            bump(self.res, "header_error_programs_refused_at_compile_time"); return
+        ioc, intr, out, steps = ld.impl_outcome(rep[2], self.E)
+        if intr:
+            self.viol("non-termination|header", "`%s` still running after 20000 statements" % label, ops, text); return
+        bad, d = ld.residue(rep[3])
+        if bad:
+            self.viol("residue|" + bad[0].split()[0], "after `%s` (%s): %s" % (label, ioc, "; ".join(bad)), ops, text); return
+        live = int(d["kw"].get("live", "0")); nfn = int(d["kw"].get("nfn", "0")); cached = int(d["kw"].get("cached", "0"))
+        if live != 1 + nfn + cached:
+            self.viol("context-conservation", "after `%s`: %d live contexts, expected 1 + %d + %d" % (label, live, nfn, cached), ops, text); return
+        if not rep[5].startswith("ok") or not rep[6].startswith("ok"):
+            self.viol("probe-rejected", "after `%s` (%s) the probe program is refused: %s / %s" % (label, ioc, rep[5][:100], rep[6][:100]), ops, text); return
+        pm = ld.markers(unhx(rfields(rep[6])[2].get("out", "-")))
+        if pm != ["@@P:3 3 2"]:
+            self.viol("probe-output", "after `%s` the probe printed %r" % (label, pm), ops, text); return
+        if expect is not None:
+            got = ld.markers(out)
+            if got != expect:
+                self.viol("handled-output|" + kind, "`%s` printed %r, the manual's semantics give %r" % (label[:200], got, expect), ops, text); return
+        self.res["nontrivial"].add(case_hash(text))
+        bump(self.res, "header_error_outcome_" + ioc[0])
+
+    def handled_fixed(self):
+        """errors handled *inside functions* while loops of the protected block are open, calls repeated (the function's context is
+        recycled), and handlers that execute break/continue after the error has closed the block's loops.  Expected markers are derived
+        by hand from the manual; where the manual is silent (a break with no loop in control) only residue and the probe are judged."""
+        F1 = ("function f1(n:integer) return integer is begin k = 0; begin for i in 1 to n loop k = k + 1; if i == 3 then raise oops; end if; end loop; "
+              "exception when oops then k = k + 100; end; return k; end;\n")
+        F2 = ("function f2(n:integer) return integer is begin k = 0; t = tab(4, 1); begin forall e in t loop k = k + e; if k == n then a = 1 / 0; end if; end loop; "
+              "exception when divide_by_zero then k = k + 50; end; return k; end;\n")
+        F3 = ("function thr(x:integer) return integer is begin for j in 1 to 3 loop if j == x then raise oops; end if; end loop; return 7; end;\n"
+              "function f3(x:integer) return integer is begin r = 0; begin w = 0; while w < 3 loop w = w + 1; r = r + thr(x); end loop; "
+              "exception when oops then r = r + 1000; end; return r; end;\n")
+        F4 = ("function f4(n:integer) return integer is begin k = 0; for o in 1 to 2 loop begin for i in 1 to n loop k = k + 1; if i == 2 then raise oops; end if; end loop; "
+              "exception when oops then k = k + 10; continue; end; k = k + 1000; end loop; return k; end;\n")
+        def P(*xs): return "".join('print "@@A:" + str(%s);\n' % x for x in xs)
+        cases = [
+            (F1 + P("f1(2)", "f1(5)", "f1(5)", "f1(2)"), ["@@A:2", "@@A:103", "@@A:103", "@@A:2"]),
+            (F1 + "for q in 1 to 3 loop " + P("f1(4)").strip() + " end loop;\n" + P("f1(1)"), ["@@A:103"] * 3 + ["@@A:1"]),
+            (F2 + P("f2(9)", "f2(2)", "f2(2)", "f2(9)"), ["@@A:4", "@@A:52", "@@A:52", "@@A:4"]),
+            (F3 + P("f3(9)", "f3(2)", "f3(2)", "f3(9)", "thr(9)"), ["@@A:21", "@@A:1000", "@@A:1000", "@@A:21", "@@A:7"]),
+            (F4 + P("f4(1)", "f4(3)", "f4(3)", "f4(1)"), ["@@A:2002", "@@A:24", "@@A:24", "@@A:2002"]),
+            (F1 + F2 + P("f1(3) + f2(1)", "f2(3) + f1(3)", "f1(9) + f2(9)"), ["@@A:154", "@@A:156", "@@A:107"]),
+            # main program: the error closes the loop of the block, the handler then runs break / continue inside an OUTER loop (defined)
+            ("c = 0;\nfor o in 1 to 3 loop begin for i in 1 to 3 loop c = c + 1; if i == 2 then raise oops; end if; end loop; exception when oops then c = c + 10; "
+             "if o == 2 then break; end if; continue; end; c = c + 1000; end loop;\n" + P("c"), ["@@A:24"]),
+            # ... and with no loop left in control (the manual is silent on what break does here): residue and probe only
+            ('c = 0;\nbegin for i in 1 to 3 loop if i == 2 then raise oops; end if; end loop; exception when oops then print "@@A:h"; break; end;\n' + P("c"), None),
+            ('c = 0;\nbegin forall e in tab(3, 1) loop c = c + 1 / (2 - c); end loop; exception when others then print "@@A:h"; continue; end;\n' + P("c"), None),
+            ('function f5 return integer is begin begin for i in 1 to 3 loop raise oops; end loop; exception when oops then break; end; return 5; end;\n' + P("f5()"), None),
+            ('c = 0;\nwhile c < 2 loop c = c + 1; begin while true loop raise oops; end loop; exception when others then nop; end; end loop;\nbreak;\n' + P("c"), None),
+        ]
+        k, n = self.desc["k"], self.desc["n"]
+        for i, (text, expect) in enumerate(cases):
+            if i % n != k: continue
+            self.judge(self.PRE + text, text.replace("\n", " ")[:160], expect=expect, counter="handled_fixed_programs", kind="in-function" if "function" in text else "main")
 
     def placements(self):
         """every placement of one failing operation in a fixed nest, with every handler-name combination"""
@@ -148,6 +192,7 @@ def plan(tier, seed):
     for i, route in enumerate(["cpp", "capi", "istmt"]):
         for k in range(2): sh.append({"kind": "placements", "k": k, "n": 2, "seed": seed, "tier": tier, "route": route})
         sh.append({"kind": "header_errors", "k": 0, "n": 1, "seed": seed, "tier": tier, "route": route})
+        sh.append({"kind": "handled_fixed", "k": 0, "n": 1, "seed": seed, "tier": tier, "route": route})
         for k in range(3): sh.append({"kind": "programs", "k": k + 10 * i, "n": 3, "seed": seed, "tier": tier, "route": route})
     return sh
 
@@ -157,6 +202,7 @@ def run_shard(desc):
     try:
         if desc["kind"] == "placements": s.placements()
         elif desc["kind"] == "header_errors": s.header_errors()
+        elif desc["kind"] == "handled_fixed": s.handled_fixed()
         else: s.programs()
     finally:
         s.probe.close()
